@@ -252,6 +252,22 @@ Section Norm.
     { apply orb_true_iff in E3. destruct E3 as [E3|E3]; facts.
       - unfold ok. split; [reflexivity|]. cbn [evalw eval_op1 eval_op2]. symmetry. apply and_not_self. exact Wa.
       - unfold ok. split; [reflexivity|]. cbn [evalw eval_op1 eval_op2]. symmetry. rewrite and_comm. apply and_not_self. exact Wb. }
+    destruct (and_const_shl_view a b) as [[[c s] y]|] eqn:V.
+    { unfold and_const_shl_view in V.
+      destruct a as [c0| | | | | | | | | | | | | | | ]; try discriminate V.
+      destruct b as [| | | | | |o0 b1 b2| | | | | | | | | ]; try discriminate V.
+      destruct o0; try discriminate V.
+      destruct b1 as [s0| | | | | | | | | | | | | | | ]; try discriminate V.
+      destruct ((0 <=? s0) && (s0 <? 256)) eqn:G; [|discriminate V]. inversion V; subst c0 s0 b2. clear V.
+      apply andb_true_iff in G. destruct G as [G1 G2]. apply Z.leb_le in G1. apply Z.ltb_lt in G2.
+      sorts.
+      assert (Wc : inw c) by (apply constw_inw; assumption).
+      assert (Ws : constw (wshr s c) = true).
+      { apply inw_constw. apply wshr_range; [exact Wc|lia]. }
+      destruct (mk2_ok AND (TConst (wshr s c)) y Ws) as [S5 E5]; [assumption|].
+      unfold ok. cbn [wsort evalw eval_op2]. rewrite S5, E5.
+      split; [match goal with H : constw s = true |- _ => rewrite H end; reflexivity|].
+      cbn [evalw eval_op2]. symmetry. apply and_const_shl. lia. }
     destruct (inner AND b) as [[x y]|] eqn:I1.
     { brk; [|dflt]. apply inner_eq in I1. subst b. apply among_cases in E4. cbn [fst snd] in E4.
       split; [exact Hb|]. cbn [evalw eval_op2]. destruct E4; subst; symmetry; [apply and_and_absorb|apply and_and_absorb_r]. }
